@@ -6,6 +6,7 @@
 #[path = "/repo/blots-wasm/src/lib.rs"]
 mod wasm_driver;
 mod x01;
+mod x02;
 
 mod c01;
 mod c02;
@@ -142,6 +143,7 @@ fn main() {
                 "c10" => c10::record(seed, n),
                 "c11" => c11::record(seed, n),
                 "c14" => c14::record(seed, n),
+                "x02" => x02::record(seed, n),
                 "c15" => c15::record(seed, n),
                 _ => {
                     eprintln!("unknown property {prop}");
